@@ -260,6 +260,26 @@ def irrelevant(m):
     return "tqdm" in t or "logger.info" in t or "logger.debug" in t or "print_progress" in t
 
 
+KEYWORDS = [("rt_", "C17"), ("sleep", "C17"), ("delta", "C17"), ("set_event", "C17"), ("perf_counter", "C17"),
+            ("async", "C16"), ("set_data", "C16"), ("successors_to_wait_for", "C16"), ("lazy", "C10"),
+            ("successors", "C10"), ("cache", "C03 C04"), ("max_advance", "C07"), ("loop", "C09"),
+            ("until", "C02 C05"), ("stop", "C14"), ("ConnectionError", "C14"), ("finalize", "C14"),
+            ("version", "C15"), ("api", "C15"), ("weak", "C11 C06"), ("initial_data", "C11 C03"), ("group", "C11 C01"),
+            ("trigger", "C02 C12"), ("persistent", "C03 C12"), ("output_time", "C13 C03"), ("next_step", "C13 C02"),
+            ("progress", "C01 C05"), ("pre_length", "C08"), ("cutoff", "C08")]
+
+
+def check_order(m, context):
+    first = []
+    for kw, props in KEYWORDS:
+        if kw in context:
+            for p in props.split():
+                if p not in first:
+                    first.append(p)
+    rest = [p for p in ORDER[m["file"]].split() if p not in first]
+    return (first + rest)[:max(MAX_CHECKS, len(first))] if m["file"] != "mosaik/_debug.py" else rest
+
+
 def phase_checks():
     muts = load("mutants.json", [])
     filt = load("filter.json", {})
@@ -273,7 +293,9 @@ def phase_checks():
             apply(wt, m)
             row = {}
             killed_by = None
-            for p in ORDER[m["file"]].split()[:MAX_CHECKS]:
+            lines = open(os.path.join(wt, m["file"])).read().splitlines()
+            context = "\n".join(lines[max(0, m["line"] - 4):m["line"] + 3])
+            for p in check_order(m, context):
                 env = dict(os.environ, MVF_NO_EVIDENCE="1", MVF_REPO=wt)
                 try:
                     r = subprocess.run([os.path.join(VERIF, "check"), p, "quick"], env=env, capture_output=True,
